@@ -141,6 +141,8 @@ type tracer struct {
 	burnAtEnd *big.Int // balances still held by self-destructed accounts when the top frame ends
 	zeroAtEnd *big.Int // balance of the zero address when the top frame ends (inbound ETXs run out of it)
 	touched   []common.Address
+	// claimsTotal counts the successful lockup claims of the transaction in any frame, including frames that failed later
+	claimsTotal int
 	// outOfScope: every address the run pointed a creation or value at that may lie outside this zone's Quai ledger (C16)
 	outOfScope []common.Address
 	slotsSeen  map[common.AddressBytes]map[common.Hash]bool
@@ -735,6 +737,7 @@ func (t *tracer) resolve(o *opRec, scope *vm.ScopeContext, child *frame) {
 				default:
 					checkEtx("fn=claim-coinbase", types.CoinbaseLockupType, common.BytesToAddress(o.mem[20:40], loc), t.w.seeds[o.lockSeed].balance, &gl)
 					f.claims++
+					t.claimsTotal++
 				}
 			} else if newEtx != 0 || lockPost != o.lockPre {
 				t.violate("C05", "op-atomicity", out("effects-without-success", "fn=claim-coinbase"), "failed claim: new ETXs %d, lockup record %s -> %s", newEtx, o.lockPre, lockPost)
